@@ -58,7 +58,9 @@ def gen_public(seed, rng, knobs):
             start = rng.choice([0, 1, fp // 2, fp - 1])
         geos[str(tid)] = {'tid': tid, 'page_size': ps, 'buffer_pages': bp, 'flash_pages': fp, 'start_page': start,
                           'proto': 0x10}
-    kind = rng.choice(['bin', 'bin', 'zip1', 'zip2', 'zip2', 'zip2'])
+    kind = rng.choice(['bin', 'bin', 'zip1', 'zip2', 'zip2', 'zip2', 'sdbl', 'sdbl'])
+    if kind == 'sdbl':
+        return gen_sdbl(seed, rng, knobs, geos)
     tids = [rng.choice([0xFF, 0xFE])] if kind != 'zip2' else rng.choice([[0xFF, 0xFE], [0xFE, 0xFF]])
     arts = []
     for i, tid in enumerate(tids):
@@ -88,6 +90,30 @@ def gen_public(seed, rng, knobs):
     return {'seed': seed, 'scenario': 'public-%s-%s' % (kind, mode), 'knobs': knobs, 'ops': [],
             'public': {'kind': kind, 'geos': geos, 'artifacts': arts, 'manifest_version': rng.choice([1, 2]),
                        'ask_targets': rng.choice(['all', 'listed'])},
+            'progress_cb': rng.random() < 0.5}
+
+
+def gen_sdbl(seed, rng, knobs, geos):
+    """A release zip that upgrades the nRF51 soft device + bootloader (which moves the firmware start page from 88 to
+    108) and carries nRF51 firmware (and possibly STM32 firmware) for the new layout."""
+    ps = rng.choice([16, 64, 128])
+    sd_pages = rng.choice([2, 8, 16])
+    fp = 108 + rng.choice([4, 12, 40]) + sd_pages
+    geos[str(0xFE)] = {'tid': 0xFE, 'page_size': ps, 'buffer_pages': rng.choice([1, 2, 4, 10]), 'flash_pages': fp,
+                       'start_page': 88, 'proto': 0x10}
+    room = (fp - sd_pages - 108) * ps
+    arts = [{'tid': 0xFE, 'type': 'bootloader+softdevice', 'len': sd_pages * ps, 'seed': rng.randrange(1 << 30)},
+            {'tid': 0xFE, 'type': 'fw', 'len': rng.choice([1, ps, room, rng.randint(1, room)]), 'seed': rng.randrange(1 << 30)}]
+    if rng.random() < 0.5:
+        g = geos[str(0xFF)]
+        arts.append({'tid': 0xFF, 'type': 'fw', 'len': rng.randint(1, (g['flash_pages'] - g['start_page']) * g['page_size']),
+                     'seed': rng.randrange(1 << 30)})
+    rng.shuffle(arts)
+    mode = rng.choice(['clean', 'clean', 'lossy'])
+    knobs['rates'] = {'flash': [0.1, 0.1, 0.0]} if mode == 'lossy' else {}
+    return {'seed': seed, 'scenario': 'public-sdbl-%s' % mode, 'knobs': knobs, 'ops': [],
+            'public': {'kind': 'sdbl', 'geos': geos, 'artifacts': arts, 'manifest_version': 2, 'ask_targets': 'all',
+                       'sd_pages': sd_pages, 'new_start': 108},
             'progress_cb': rng.random() < 0.5}
 
 
@@ -187,8 +213,13 @@ def execute_public(ctx):
               needs_resending=False)
     tgt = SimBootTarget(sim, ctx.faults, geos)
     w.add_device('boot', tgt)
+    w.uri_alias = lambda uri: 'boot' if uri.startswith('radio://0/0/2M/B1') else None
     w.install()
     ctx.notes['nontrivial'] = True
+    if pub['kind'] == 'sdbl':
+        g = geos[0xFE]
+        tgt.sd_region[0xFE] = g['flash_pages'] - pub['sd_pages']
+        tgt.after_reset[0xFE] = {'start_page': pub['new_start']}
     images = []
     for a in pub['artifacts']:
         r = random.Random(a['seed'])
@@ -208,10 +239,18 @@ def execute_public(ctx):
                 for a, img in zip(pub['artifacts'], images):
                     g = geos[a['tid']]
                     arc = 'cf2-%s.bin' % name[a['tid']]
+                    if a.get('type') == 'bootloader+softdevice':
+                        arc = 'cf2-nrf51-sd-bl.bin'
                     zf.writestr(arc, img)
-                    md = {'platform': 'cf2', 'target': name[a['tid']], 'type': 'fw', 'release': '2099.1',
+                    md = {'platform': 'cf2', 'target': name[a['tid']], 'type': a.get('type', 'fw'), 'release': '2099.1',
                           'repository': 'x'}
-                    if a['tid'] == 0xFE:
+                    if a.get('type') == 'bootloader+softdevice':
+                        md['provides'] = ['sd-s130']
+                        md['requires'] = []
+                    elif pub['kind'] == 'sdbl' and a['tid'] == 0xFE:
+                        md['requires'] = ['sd-s130']
+                        md['provides'] = []
+                    elif a['tid'] == 0xFE:
                         md['requires'] = ['sd-s110' if geos[0xFE]['start_page'] == 88 else 'sd-s130']
                     elif pub['manifest_version'] == 2:
                         md['requires'] = []
@@ -259,6 +298,8 @@ def execute_public(ctx):
                       'thread %s died: %s' % (tname, exc), tb)
     if 'n_before' not in res:
         return
+    if pub['kind'] == 'sdbl':
+        return oracle_sdbl(ctx, tgt, geos, pub, images, res)
     cmds = tgt.cmds[res['n_before']:]
     # the artifacts are flashed in manifest order; the first failing one ends the flashing
     failed_before = False
@@ -296,6 +337,80 @@ def execute_public(ctx):
         if tid not in [a['tid'] for a in pub['artifacts']] and bytes(tgt.t[tid]['flash']) != tgt.t[tid]['pristine']:
             ctx.violation('1', 'flash-of-other-target-modified', 'target %#x has no image in the file' % tid)
     ctx.probe('public flash() %s' % pub['kind'])
+
+
+def oracle_sdbl(ctx, tgt, geos, pub, images, res):
+    """Soft-device + bootloader upgrade: the first firmware page is erased, the new soft device goes to the top of the
+    flash, the nRF51 is reset into the new bootloader, and the firmware then goes to the start page the NEW bootloader
+    reports.  Nothing else changes."""
+    ctx.probe('public flash() with a soft-device / bootloader upgrade')
+    if tgt.out_of_range:
+        ctx.violation('1', 'address-out-of-range %s' % tgt.out_of_range[0][0], '%r' % (tgt.out_of_range[:3],))
+    lossy = bool(ctx.knobs.get('rates'))
+    if 'exc' in res:
+        if not lossy or not any(_write_failed([w_ for w_ in tgt.writes if w_[1] == t]) for t in geos):
+            ctx.violation('4', 'flashing-aborted-without-failure %s' % type(res['exc']).__name__,
+                          'flash() raised %r although every flash-write was answered' % (res['exc'],))
+        return
+    if any(_write_failed([w_ for w_ in tgt.writes if w_[1] == t]) for t in geos):
+        ctx.violation('4', 'no-error-after-failed-flash-write', 'a flash-write failed but flash() returned normally')
+        return
+    for tid, g in geos.items():
+        ps = g['page_size']
+        exp = bytearray(tgt.t[tid]['pristine'])
+        regions = []
+        if tid == 0xFE:
+            old = 88
+            exp[old * ps:(old + 1) * ps] = b'\xff' * ps
+            regions.append(('erased first firmware page', old, 1))
+        for a, img in zip(pub['artifacts'], images):
+            if a['tid'] != tid:
+                continue
+            if a.get('type') == 'bootloader+softdevice':
+                page = g['flash_pages'] - len(img) // ps
+            elif tid == 0xFE:
+                page = pub['new_start']
+            else:
+                page = g['start_page']
+            exp[page * ps:page * ps + len(img)] = img
+            regions.append((a.get('type', 'fw'), page, (len(img) + ps - 1) // ps))
+        got = bytes(tgt.t[tid]['flash'])
+        # whole pages are written: bytes of the last page of an image beyond its end are unspecified
+        mask = bytearray(len(got))
+        for (_, page, npg) in regions:
+            for i in range(page * ps, min(len(got), (page + npg) * ps)):
+                mask[i] = 1
+        for a, img in zip(pub['artifacts'], images):
+            pass
+        diff = None
+        for i in range(len(got)):
+            if got[i] != exp[i]:
+                inside_tail = mask[i] and exp[i] == tgt.t[tid]['pristine'][i] and not any(
+                    page * ps <= i < page * ps + ln for (page, ln) in _exact_ranges(tid, g, pub, images))
+                if not inside_tail:
+                    diff = i
+                    break
+        if diff is not None:
+            ctx.violation('1', 'flash-differs-after-softdevice-upgrade', 'target %#x: first difference at page %d offset %d; '
+                          'expected regions (what, first page, pages): %r' % (tid, diff // ps, diff % ps, regions))
+            return
+
+
+def _exact_ranges(tid, g, pub, images):
+    ps = g['page_size']
+    out = []
+    if tid == 0xFE:
+        out.append((88, ps))
+    for a, img in zip(pub['artifacts'], images):
+        if a['tid'] != tid:
+            continue
+        if a.get('type') == 'bootloader+softdevice':
+            out.append((g['flash_pages'] - len(img) // ps, len(img)))
+        elif tid == 0xFE:
+            out.append((pub['new_start'], len(img)))
+        else:
+            out.append((g['start_page'], len(img)))
+    return out
 
 
 def _write_failed(writes):
